@@ -58,12 +58,16 @@ PROPS = {
                 bounded="C09", level="other"),
     # C10: every validator returns exactly VALID (the statement's predicate) in the non-raising mode; the
     # raising mode, validate()/validate_many() (which parse first) and the writer agreement are bounded
-    "C10": dict(functions=[(VP, r"_validate.*", ".*"), ("fastavro/_schema_py.py", r"schema_name", "default"),
+    "C10": dict(functions=[(VP, r"_validate.*", ".*"), ("fastavro/_schema_py.py", r"schema_name", ".*"),
                            (W, r"Writer\.write", "validating")],
                 lemmas=[], bounded="C10", level="other"),
-    "C11": dict(functions=[], lemmas=[], bounded="C11", level="exploration"),
+    # C11: only the name rule (schema_name: full name from name / namespace / enclosing namespace) is under contract;
+    # parse_schema itself is bounded -- the level stays exploration
+    "C11": dict(functions=[("fastavro/_schema_py.py", r"schema_name", "default")], lemmas=[], bounded="C11", level="exploration"),
     "C12": dict(functions=[], lemmas=[], bounded="C12", level="exploration"),
-    "C13": dict(functions=[], lemmas=[], bounded="C13", level="exploration"),
+    # C13: the recursive canonical-form writer against PCF (spec/canon.py) on parsed schemas; parse_schema (full
+    # names, namespaces dropped), fixed point, same encoding and the cosmetic-edit invariance are bounded
+    "C13": dict(functions=[("fastavro/_schema_py.py", r"_to_parsing_canonical_form", "default")], lemmas=[], bounded="C13", level="other"),
     "C14": dict(functions=[("fastavro/_schema_common.py", r"rabin_fingerprint", "default"), ("fastavro/_schema_py.py", r"fingerprint", "default")],
                 lemmas=[], bounded="C14", level="proof"),
     "C15": dict(functions=[], lemmas=[], bounded="C15", level="exploration"),
